@@ -73,6 +73,7 @@ type replayFile struct {
 	Kind     string            `json:"kind"`
 	Pos      string            `json:"pos,omitempty"`
 	Extra    map[string]string `json:"extra,omitempty"`
+	Choices  []int             `json:"choices,omitempty"`
 }
 
 func envInt(name string, def int) int {
@@ -287,6 +288,10 @@ func cmdCheck(args []string) int {
 			if seenWL[key] || perHarness[wj.j.Harness] >= maxW {
 				continue
 			}
+			if wj.j.Bounds["sched_replay"] == 1 {
+				// free-running native goroutines do not follow the model's schedule
+				continue
+			}
 			if strings.HasPrefix(wj.w.Label, "uf:") {
 				// the model relies on the freedom of an uninterpreted function (e.g. a
 				// hash collision between 1-byte keys): not realisable natively
@@ -325,14 +330,26 @@ func cmdCheck(args []string) int {
 		// counterexamples
 		for i, c := range cands {
 			f := filepath.Join(outDir, fmt.Sprintf("cex-%d.json", i))
-			writeJSON(f, replayFile{Property: *propID, Harness: c.j.Harness, Bounds: c.j.Bounds, Inputs: c.v.Inputs, Known: known, Label: c.v.Label, Kind: c.v.Kind, Pos: c.v.Pos, Extra: c.v.Extra})
+			writeJSON(f, replayFile{Property: *propID, Harness: c.j.Harness, Bounds: c.j.Bounds, Inputs: c.v.Inputs, Known: known, Label: c.v.Label, Kind: c.v.Kind, Pos: c.v.Pos, Extra: c.v.Extra, Choices: c.v.Choices})
 			tmo := 60 * time.Second
 			if c.v.Kind == "unwind" {
 				tmo = 10 * time.Second
 			}
-			rr, err := runReplay(replayBin, f, tmo)
+			var rr *replayResult
+			var err error
 			confirmed := false
+			if c.j.Bounds["sched_replay"] == 1 {
+				// schedule counterexample: validated by the worker's concrete re-execution
+				confirmed = c.v.Confirmed != ""
+				if !confirmed {
+					inconclusive = append(inconclusive, fmt.Sprintf("schedule counterexample %s (%s: %s) did not reproduce in the concrete re-execution", f, c.j.Harness, c.v.Label))
+				}
+				err = fmt.Errorf("n/a")
+			} else {
+				rr, err = runReplay(replayBin, f, tmo)
+			}
 			switch {
+			case c.j.Bounds["sched_replay"] == 1:
 			case err == errReplayTimeout && c.v.Kind == "unwind":
 				confirmed = true
 			case err != nil:
@@ -676,6 +693,29 @@ func cmdReplay(args []string) int {
 	if fs.NArg() != 1 {
 		fmt.Fprintln(os.Stderr, "usage: gosym replay <file>")
 		return 2
+	}
+	// schedule counterexamples are re-executed concretely by the engine
+	if data, err := os.ReadFile(fs.Arg(0)); err == nil {
+		var rf replayFile
+		if json.Unmarshal(data, &rf) == nil && rf.Bounds["sched_replay"] == 1 {
+			p, err := load.Load(*repo, filepath.Join(*verif, "harness"), "./...")
+			if err != nil {
+				fmt.Fprintln(os.Stderr, err)
+				return 2
+			}
+			fn, err := findHarness(p, rf.Harness)
+			if err != nil {
+				fmt.Fprintln(os.Stderr, err)
+				return 2
+			}
+			v := &exec.Violation{Label: rf.Label, Kind: rf.Kind, Inputs: rf.Inputs, Choices: rf.Choices}
+			if confirmConcrete(p, fn, exec.Config{Bounds: rf.Bounds}, "z3-new", 10000, v) {
+				fmt.Printf("concrete re-execution under the recorded schedule fails %q\n", rf.Label)
+				return 1
+			}
+			fmt.Println("concrete re-execution does not fail the assertion")
+			return 0
+		}
 	}
 	outDir := filepath.Join(*verif, "out", "replay")
 	os.MkdirAll(outDir, 0755)
